@@ -3,6 +3,7 @@
 set -e
 cd "$(dirname "$0")/.."
 export CARGO_NET_OFFLINE=true
+(cd harness && [ -f Cargo.lock ] || cp /repo/Cargo.lock Cargo.lock; cargo build --release --offline 2>&1 | tail -1)
 python3 tools/extract_facts.py
 cd coq
 coq_makefile -f _CoqProject -o Makefile >/dev/null
